@@ -1,10 +1,36 @@
+"""C09 - credential and PKI parsers are memory-safe and total on arbitrary bytes.
+Eleven libFuzzer targets (one per parser family), each with an ASN.1-aware custom mutator (asn1_mutator.h),
+seeded from /repo/testkeys (corpus/C09/<target>/, built by make_corpus.py); minimised reproducers of every
+finding live in corpus/C09/<target>/regress/ and are replayed on every run."""
+
+
+def T(name, src, quick_secs, max_len=8192, timeout=25, **kw):
+    d = dict(name=name, src=['props/C09/' + src], engine='libfuzzer', corpus=['corpus/C09/' + name], max_len=max_len,
+             timeout=timeout, hang_is_violation=True, fuzz_args=['-close_fd_mask=1', '-len_control=50'],
+             quick=dict(secs=quick_secs, shards=16), thorough=dict(secs=180, shards=16))
+    d.update(kw)
+    return d
+
+
 PROP = dict(
     level='exploration',
-    level_text='Coverage-guided fuzzing of every credential/PKI parser entry point under ASan+UBSan+LSan with an object-consistency walker on success.',
-    level_note='Trusted: sanitizers; the walker only asserts what the API documents.',
-    technique='coverage-guided fuzzing (libFuzzer) with sanitizer + consistency-walker oracle',
-    rule='inputs = coverage-guided mutations of sample credentials; non-trivial = parser accepted the input or got past the outer SEQUENCE',
-    assumptions=[],
-    targets=[dict(name='c09_x509_cert', src=['props/C09/x509_cert.cc'], engine='libfuzzer', corpus=['corpus/C09/x509'], max_len=8192, hang_is_violation=True,
-                  quick=dict(secs=15), thorough=dict(secs=180))],
+    level_text='Coverage-guided, ASN.1-structure-aware fuzzing of every credential/PKI parser entry point under ASan+UBSan+LSan with an object-consistency walker and re-parse round trip on success.',
+    level_note='Trusted: sanitizers and the ASan shadow queried by the walker; the walker only asserts what the headers / parser comments document. Not exhaustive: absence of a finding is evidence for the explored inputs only.',
+    technique='coverage-guided fuzzing (libFuzzer) with custom ASN.1 TLV mutator, sanitizer + leak + consistency-walker + round-trip oracle',
+    rule='inputs = structure-aware and byte-level mutations of sample credentials; non-trivial = the parser accepted the input or the input has a well-formed outer TLV / PEM armour (parser got past the outer SEQUENCE); distinct by (entry point, flags, verdict, hash of the lenient TLV tag skeleton)',
+    assumptions=['key/response structures are zero-initialised before parsing, as every in-tree caller does',
+                 'input buffers are exact-size heap copies without a terminating NUL (the APIs take pointer+length)'],
+    targets=[
+        T('c09_x509_cert', 'x509_cert.cc', 12),
+        T('c09_x509_pem_bundle', 'x509_pem_bundle.cc', 8),
+        T('c09_crl', 'crl.cc', 10),
+        T('c09_ocsp_response', 'ocsp_response.cc', 10),
+        T('c09_pkcs8', 'pkcs8.cc', 7, timeout=40),
+        T('c09_pkcs12', 'pkcs12.cc', 10, timeout=40),
+        T('c09_privkey_any', 'privkey_any.cc', 8, timeout=40),
+        T('c09_pubkey_any', 'pubkey_any.cc', 7),
+        T('c09_dh_params', 'dh_params.cc', 5),
+        T('c09_pem_decode', 'pem_decode.cc', 6),
+        T('c09_load_keys_mem', 'load_keys_mem.cc', 10, timeout=40),
+    ],
 )
